@@ -57,7 +57,7 @@ impl ParseInfo {
         }
         let cel_id = CelId {
             frame: frame_id,
-            layer: cel.data.layer_index,
+            layer: cel.data.layer_index as u32,
         };
         self.framedata.add_cel(frame_id, cel)?;
         self.user_data_context = Some(UserDataContext::CelId(cel_id));
